@@ -364,7 +364,36 @@ func (e *env) runCase(cd caseDef) {
 		if strings.Contains(cd.alt, "gater") {
 			delay = 0
 		}
-		cl.Net.Inject(cl.PeerIDs[e.sender()], cl.PeerIDs[e.target], protoParSigEx, e.peerMsg(duty, claimPK, pb), delay)
+		msg := e.peerMsg(duty, claimPK, pb)
+		if cd.alt == "sig-by-other-share" && verifrt.Intn("f", 2) == 1 {
+			// a two-entry set: the other validator's entry is valid and verified slowly (beacon node
+			// latency during verification exceeds the receive timeout); the invalid entry must still
+			// keep the whole set out, whichever entry the handler verifies first
+			inB := ts.mk(e, params{v: B, slot: slot, salt: e.salt + 1000})
+			vB, gB := e.correct(ts, inB)
+			pbB, err := core.ParSignedDataToProto(core.ParSignedData{SignedData: inB.wrap(sign(B.Shares[idx], e.signingRoot(inB.root(), dom, vB, gB))), ShareIdx: idx})
+			must(err)
+			msg = frame(&pbv1.ParSigExMsg{Duty: core.DutyToProto(duty), DataSet: &pbv1.ParSignedDataSet{Set: map[string]*pbv1.ParSignedData{string(claimPK): pb, string(B.CorePK): pbB}}})
+			e.tn.Beacon.Latency = func(string) time.Duration { return 2600 * time.Millisecond }
+			defer func() { e.tn.Beacon.Latency = nil }()
+			verifrt.Fault("slow-verification-two-entry-set")
+		}
+		cl.Net.Inject(cl.PeerIDs[e.sender()], cl.PeerIDs[e.target], protoParSigEx, msg, delay)
+		if !control && !valid && verifrt.Intn("f", 6) == 5 {
+			// the target node stalls (GC pause, starved host) at a random point of handling the message,
+			// for longer than the receive timeout: an expired receive context must not let an unverified
+			// partial signature through
+			steps := verifrt.Intn("f", 24)
+			verifrt.Go(func() {
+				if delay > 0 {
+					verifrt.Sleep(delay)
+				}
+				for k := 0; k < steps; k++ {
+					verifrt.Yield()
+				}
+				verifrt.Stall(e.tn.Tag, 7*time.Second)
+			})
+		}
 	} else {
 		verifrt.GoNode(e.tn.Tag, func() {
 			ctx, cancel := context.WithTimeout(e.tn.Ctx, 3*time.Second)
